@@ -29,6 +29,18 @@ def key_parts(w, quick):
 def parts_sk(w, quick): return [p for p in key_parts(w, quick) if "_sk_" in p]
 def parts_tweak(w, quick): return [p for p in key_parts(w, quick) if "_stk_" in p or "_st_" in p]
 
+def ct_part_names(quick, simd=True):
+    """constant-time-only parts: MANTIS single-block API, CTR and parallel-ECB back ends (generic; SIMD where compiled in)"""
+    import importlib.util, sys
+    tdir = os.path.join(C.VERIF, "translator")
+    if tdir not in sys.path: sys.path.insert(0, tdir)
+    spec = importlib.util.spec_from_file_location("translator_whole", os.path.join(tdir, "whole.py"))
+    TW = importlib.util.module_from_spec(spec); spec.loader.exec_module(TW)
+    names = [n for n in TW.mantis_cfgs() if not quick or n in ("mct_setkey_7_0", "mct_setkey_bad_16_9", "mct_crypt_5", "mct_cryptt_8", "mct_settweak_null", "mct_swap")]
+    names += list(TW.ctr_parts(quick)) + list(TW.par_parts(quick))
+    if not simd: names = [n for n in names if "_v128_" not in n and "_v256_" not in n]
+    return names
+
 def one(repo_copy, gen, cfg, part):
     gv = os.path.join(gen, "Whole_%s_%s.v" % (cfg, part))
     rc, out, err = C.sh(["python3", os.path.join(C.VERIF, "translator", "whole.py"), repo_copy, gv, cfg, part] + KCFG[cfg], timeout=300)
@@ -58,7 +70,7 @@ def check_whole(run, cfgs, parts):
     if not ok:
         raise RuntimeError("the whole-function checking library does not build:\n" + log[-2000:])
     gen = os.path.join(run.work.dir, "genw"); os.makedirs(gen, exist_ok=True)
-    jobs = [(c, p) for c in cfgs for p in parts]
+    jobs = [(c, p) for c in cfgs for p in parts if not (("_v128_" in p or "_v256_" in p) and c not in ("native", "w32", "noua"))]
     with ThreadPoolExecutor(max_workers=min(C.NCPU, len(jobs))) as ex:
         res = list(ex.map(lambda cp: one(v0.dir, gen, cp[0], cp[1]), jobs))
     prev = getattr(run, "whole_stats", None) or {"configurations": [], "parts": [], "obligations": 0, "discharged": 0}
